@@ -52,6 +52,12 @@ ASSUMPTIONS = [
     "related histories: an operation whose candidate tolerance the harness does not predict (documents with "
     "region-wise areas, YAML texts) is placed after a first writer whose candidate is predicted",
     "BDD node ids are renamed by the structure of the node (variable, canonical names of the children)",
+    "a diagram store of more than 600 nodes is not handed to vm_compute (cost): the C07 model is then run from the "
+    "empty store and the semantic part of c07_check decides (statuses, the set of user assignments observed to extend "
+    "against the set the theorem predicts; C20_memory_independent); every SAT probe over <= 10 variables observes "
+    "that projection (PySAT, a solver of the harness' own) and it is part of the digest",
+    "pattern families (same index pattern, other line coordinates) on grids of more than 20 cells / hard modules "
+    "of more than 8 rectangles are compared by digest only (stream exact-large)",
 ]
 
 WORKER_TIMEOUT = 600
@@ -1322,7 +1328,13 @@ def run(ctx, out, replay=None):
                 "complement), transposed / mirrored / rescaled by 2, the same rectangles through another class, the "
                 "same document as text or with integers - interleaved with 0-3 unrelated operations; the probe and "
                 "up to three of its near-duplicates are each executed at the end of that history. "
-                "non-trivial = non-empty history; distinct by (order-sensitive) hash")
+                "SAME PATTERN / OTHER COORDINATES (die-pattern, die-pattern-64, alloc-pattern, stog-pattern): one "
+                "index pattern (occupancy matrix, regions / cells / rectangles by line numbers) on a grid of 16..100 "
+                "cells over line coordinates rescaled non-uniformly, with one very wide column / tall row, "
+                "transposed, reversed, one line moved, doubled. BIG STORE: a history operation that grows the "
+                "diagram store by 400 / 3*10^4 / 2^20+4096 nodes (thorough: ten sizes up to 2^21), then three fresh "
+                "managers posting non-clause inequalities, a random posting sequence, a Strop and a default-argument "
+                "probe. non-trivial = non-empty history; distinct by (order-sensitive) hash")
     cases = []
     if replay and "case" in replay:
         cases.append(fr.unjson(replay["case"]))
